@@ -27,6 +27,10 @@ def gen_mut_case(rng, bounded=False):
     grid = rng.random() < 0.4
     X = np.array([[[gens.dyadic(rng) if grid else rng.uniform(-5, 5) for _ in range(v)] for _ in range(n)] for _ in range(1 + 2 * k)])
     case = {"k": k, "F": F, "gamma": gamma, "X": [enc(m) for m in X], "seed": rng.randrange(2 ** 31), "api": rng.choice(["de_mutation", "do"])}
+    if rng.random() < 0.2:
+        # integer-coded parents (int64 arrays); the mutants are real-valued
+        X = np.array([[[float(rng.randint(-9, 9)) for _ in range(v)] for _ in range(n)] for _ in range(1 + 2 * k)])
+        case["X"] = [enc(m) for m in X]; case["xdtype"] = "int64"
     if rng.random() < 0.3:
         case["rand_values"] = [float(rng.choice([0.0, gens.ONE_M, 0.5, 2.0 ** -53, rng.random()])).hex() for _ in range(7)]
     return case
@@ -81,6 +85,8 @@ def run_mut(case):
     from pymoo.core.population import Population
     from pymoo.core.problem import Problem
     X = np.array([decarr(m, 2) for m in case["X"]])
+    if "xdtype" in case:
+        X = X.astype(case["xdtype"])
     F = tuple(case["F"]) if isinstance(case["F"], list) else case["F"]
     X0 = X.copy()
     rv = [float.fromhex(h) for h in case["rand_values"]] if "rand_values" in case else None
@@ -99,7 +105,8 @@ def run_mut(case):
             off = dem.do(prob, pop, P)
             V, d = off.get("X"), None
             frame = bool(np.array_equal(pop.get("X"), X0.reshape(n_par * n, v)))
-    return {"V": enc(V), "d": None if d is None else enc(d), "events": enc_events(rec.events), "frame": frame, "n_parents": dem.n_parents}
+    return {"V": enc(np.asarray(V, dtype=float)), "d": None if d is None else enc(np.asarray(d, dtype=float)), "events": enc_events(rec.events), "frame": frame,
+            "n_parents": dem.n_parents}
 
 
 def mut_term(case, obs):
@@ -149,7 +156,7 @@ class C10(Check):
     ID = "C10"
     IMPORTS = "From PV Require Import Model.Repair Model.Mutate Model.Cross Model.Select Model.Variant."
     RULE = ("DEM.de_mutation(X, return_differentials=True) and DEM.do on an unbounded problem; 3/5/7 parents, F scalar (0, .5, 2, 7) / range / None, "
-            "gamma None/0/1e-4/.5/1.9, dyadic and continuous parents, recorded and boundary-scripted draws; compared bit-exactly incl. order of additions; "
+            "gamma None/0/1e-4/.5/1.9, dyadic, continuous and integer-coded (int64) parents, recorded and boundary-scripted draws; compared bit-exactly incl. order of additions; "
             "non-trivial = F dithered or jitter on or more than one difference; distinct by hash")
     ASSUMPTIONS = ["exact-arithmetic theorem (Q); binary64 rounding only through the bit-exact runs"]
     QUICK_N = 400
@@ -195,7 +202,8 @@ class C10(Check):
             return ["variant-string", case["sel"], "y=%d" % case["y"]]
         F = case["F"]
         return ["k=%d" % case["k"], "F-none" if F is None else "F-range" if isinstance(F, list) else "F-scalar",
-                "jitter" if case["gamma"] is not None else "no-jitter", case["api"]] + (["scripted-draws"] if "rand_values" in case else [])
+                "jitter" if case["gamma"] is not None else "no-jitter", case["api"]] + (["scripted-draws"] if "rand_values" in case else []) + (
+                    ["parents-" + case["xdtype"]] if "xdtype" in case else [])
 
     def explain(self, case, obs):
         if case["api"] == "variant":
